@@ -146,6 +146,23 @@ class Router:
         return self.elems[self.branch_of(p.flow_id)].put(p)
 
 
+def ids_per_flow(w):
+    """number the packets of a workload PER FLOW from 1, in injection order, as DistPacketGenerator does: packets of different
+    flows carry equal packet ids and are in flight together (identity for the monitors stays the harness uid)"""
+    order = []
+    for d in w["drivers"]:
+        for (t, uids) in d["bursts"]:
+            for u in uids:
+                order.append((Fraction(t), d["late"], u))
+    order.sort(key=lambda x: (x[0], x[1]))
+    nxt = {}
+    for (_, _, u) in order:
+        sp = w["packets"][str(u)]
+        nxt[sp["flow"]] = nxt.get(sp["flow"], 0) + 1
+        sp["id"] = nxt[sp["flow"]]
+    return w
+
+
 def topo(case):
     """the wiring of a composed case: entry(flow) -> stage a driver puts into; the Coq element term is built by _pipe_E"""
     kind = case["kind"]
@@ -536,7 +553,7 @@ class GenSinkPart:
         eids = ["p1", "sw3", None]
         rng.shuffle(eids)
         stages = [self._gen_stage(rng, el, npk, one_wire, twin, eids) for el in els]
-        return {"kind": "pipe", "stages": stages, "workload": w, "pre": rng.random() < 0.3, "rev": rng.random() < 0.5}
+        return {"kind": "pipe", "stages": stages, "workload": ids_per_flow(w), "pre": rng.random() < 0.3, "rev": rng.random() < 0.5}
 
     def _gen_fanin(self, rng):
         """two upstream elements (flow 0 is injected into the first, flows 1 and 2 into the second) feeding ONE scheduler"""
@@ -553,7 +570,7 @@ class GenSinkPart:
         rng.shuffle(eids)
         one_wire = ups.count("wire") == 1
         stages = [self._gen_stage(rng, el, npk, one_wire, False, eids) for el in ups + [down]]
-        return {"kind": "fanin", "stages": stages, "workload": w, "pre": rng.random() < 0.3, "rev": rng.random() < 0.5}
+        return {"kind": "fanin", "stages": stages, "workload": ids_per_flow(w), "pre": rng.random() < 0.3, "rev": rng.random() < 0.5}
 
     def _gen_fanout(self, rng):
         """one upstream element, a FlowDemux / FIBDemux with two outputs and no default, two downstream elements; packets of a
@@ -575,7 +592,7 @@ class GenSinkPart:
             dm = {"el": "flowdemux"}                                  # flow 0 -> first output, flow 1 -> second, flow 2 -> nowhere
         else:
             dm = {"el": "fibdemux", "fib": rng.choice([{"0": 1, "1": 0, "2": 1}, {"0": 0, "1": 1}, {"0": 0, "1": 0, "2": 1}, {"1": 1, "2": 5}])}
-        return {"kind": "fanout", "stages": [st[0], dm, st[1], st[2]], "workload": w, "pre": rng.random() < 0.3,
+        return {"kind": "fanout", "stages": [st[0], dm, st[1], st[2]], "workload": ids_per_flow(w), "pre": rng.random() < 0.3,
                 "rev": rng.random() < 0.5}
 
     @staticmethod
